@@ -128,3 +128,30 @@ Proof.
   { unfold mean. rewrite detrend0_residual_orthogonal_to_constants by exact H. unfold Rdiv. apply Rmult_0_l. }
   unfold detrend0 at 1. rewrite Hm. rewrite <- (map_id (detrend0 l)) at 2. apply map_ext. intros x. ring.
 Qed.
+
+(* homogeneity: scaling every ordinate (ASD^2) by k scales the integral by k, so RMS(c*asd) = |c| RMS(asd) *)
+Lemma trapz_scale_acc (k : R) pts : forall a, trapzR (map (fun p => (fst p, k * snd p)) pts) (k * a) = k * trapzR pts a.
+Proof.
+  induction pts as [|[f0 y0] tl IH]; intros a; [reflexivity|].
+  destruct tl as [|[f1 y1] tl']; [reflexivity|].
+  rewrite trapz_cons2. rewrite <- IH. cbn [map fst snd]. rewrite trapz_cons2. f_equal. lra.
+Qed.
+Theorem trapz_scale (k : R) pts : trapzR (map (fun p => (fst p, k * snd p)) pts) 0 = k * trapzR pts 0.
+Proof. rewrite <- trapz_scale_acc. f_equal. lra. Qed.
+(* the trapezoid rule is exact for an integrand that is affine in frequency: on ANY grid (not only uniform ones)
+   the integral of a + b f from the first to the last grid point is a (fN - f0) + b (fN^2 - f0^2)/2 *)
+Lemma last_nonempty_indep (z : R) l : forall d d', last (z :: l) d = last (z :: l) d'.
+Proof. revert z; induction l as [|w l IH]; intros z d d'; [reflexivity|]. change (last (w :: l) d = last (w :: l) d'). apply IH. Qed.
+Lemma last_cons2 (x y : R) l : last (x :: l) y = last l x.
+Proof. destruct l as [|z l]; [reflexivity|]. change (last (z :: l) y = last (z :: l) x). apply last_nonempty_indep. Qed.
+Lemma trapz_affine_acc (a b : R) (fs : list R) : forall f0 acc,
+  trapzR (map (fun f => (f, a + b * f)) (f0 :: fs)) acc =
+  acc + a * (last fs f0 - f0) + b * (last fs f0 * last fs f0 - f0 * f0) / 2.
+Proof.
+  induction fs as [|f1 tl IH]; intros f0 acc; [cbn; lra|].
+  cbn [map] in *. rewrite trapz_cons2. rewrite IH. rewrite last_cons2. lra.
+Qed.
+Theorem trapz_affine_exact (a b : R) (fs : list R) (f0 : R) :
+  trapzR (map (fun f => (f, a + b * f)) (f0 :: fs)) 0 =
+  a * (last fs f0 - f0) + b * (last fs f0 * last fs f0 - f0 * f0) / 2.
+Proof. rewrite trapz_affine_acc. lra. Qed.
